@@ -119,6 +119,9 @@ func drawConfig(r *rand.Rand, ps *PropSpec) world.Config {
 	cfg.OddUser = r.Intn(6) == 0
 	cfg.HostReusesDNSMap = r.Intn(5) == 0
 	cfg.LongIDs = r.Intn(12) == 0
+	cfg.TraceLog = r.Intn(8) == 0
+	cfg.ScratchReads = r.Intn(6) == 0
+	cfg.NilTrie = r.Intn(3) == 0
 	return cfg
 }
 
